@@ -2,7 +2,10 @@ package main
 
 import (
 	"fmt"
+	"go/constant"
 	"go/types"
+	"regexp"
+	"strconv"
 	"strings"
 
 	"golang.org/x/tools/go/ssa"
@@ -469,14 +472,47 @@ func (fc *funcCtx) nativeCall(st *State, ins ssa.Instruction, key string, callee
 			fc.abort("hex.EncodeToString of bytes whose text is unknown")
 		}
 		return Sc{app("hexenc", sv.Str), SStr}, true, false
+	case "regexp.Compile", "regexp.MustCompile":
+		// a constant pattern is compiled here, by the same library: the error result is decided
+		if c, ok := callee.Params, true; ok && len(c) == 1 {
+			if ci, isCall := ins.(ssa.CallInstruction); isCall {
+				if pc, isConst := ci.Common().Args[0].(*ssa.Const); isConst && pc.Value != nil {
+					_, cerr := regexp.Compile(constant.StringVal(pc.Value))
+					use("regexp.Compile of the constant pattern " + strconv.Quote(constant.StringVal(pc.Value)) + " evaluated by the generator with the same library")
+					key := fmt.Sprintf("regexp:%d", freshCounter)
+					freshCounter++
+					st.cells[key] = Sc{"0", SInt}
+					ptr := PtrV{Cell: key, IsNil: "false"}
+					if key == "regexp.MustCompile" || callee.Signature.Results().Len() == 1 {
+						if cerr != nil {
+							fc.oblige(st, "no-panic", fc.site(ins.Pos(), "call"), "false", "regexp.MustCompile panics on this pattern")
+						}
+						return ptr, true, false
+					}
+					nilT := "true"
+					if cerr != nil {
+						nilT = "false"
+					}
+					return TupleV{ptr, IfaceV{Nil: nilT, Tag: "0"}}, true, false
+				}
+			}
+		}
+		return nil, false, false
 	case "sort.Strings":
-		use("sort.Strings on two elements leaves (min, max) under Go's string order")
+		use("sort.Strings on two elements leaves (min, max) under Go's string order; on other lengths the contents become an arbitrary sorted permutation (only 'unchanged elsewhere' is kept)")
 		sv, ok := args[0].(SliceV)
 		if !ok {
 			fc.abort("sort.Strings on %T", args[0])
 		}
 		if sv.Len != "2" {
-			fc.abort("sort.Strings is modelled for two-element slices only")
+			h := fc.heap(st, SStr)
+			nh := st.freshConst("heap", heapSort(SStr))
+			st.assume(frameOtherRows(nh, h, sv.Ref))
+			st.heaps[SStr] = nh
+			if fc.frameChecked() {
+				fc.oblige(st, "frame", "sort.Strings/"+fc.site(ins.Pos(), "call"), or(app("=", sv.Len, "0"), app(">=", sv.Ref, st.entryBase)), "sort.Strings reorders only storage allocated by this call")
+			}
+			return TupleV{}, true, false
 		}
 		h := fc.heap(st, SStr)
 		a := app("select", app("select", h, sv.Ref), sv.Off)
